@@ -7,13 +7,16 @@ package main
 //   impl.txt line  = cx_total cx_destroy cx_active cx_restricted rq_total rq_success rq_failure | per-command t/s/e | upstream_conserved
 
 import (
+	"bufio"
 	"fmt"
+	"net"
 	"sort"
 	"strconv"
 	"strings"
 	"time"
 
 	"github.com/samaritan-proxy/samaritan/host"
+	"github.com/samaritan-proxy/samaritan/proc"
 	"github.com/samaritan-proxy/samaritan/stats"
 )
 
@@ -156,7 +159,39 @@ func runC20(r *rng) (string, string) {
 	}
 	down := map[int]bool{}
 	for j, nj := 0, 3+r.intn(30); j < nj && !stopped; j++ {
-		switch r.intn(12) {
+		switch r.intn(13) {
+		case 12:
+			// a client that goes away while its reply is on the way: the reply cannot be written; the request was counted
+			// by its outcome all the same, once
+			if len(down) > 0 {
+				continue
+			}
+			sc := dialProxy(sp.addr)
+			res, alive := ask(sc, bulkArr([]byte("ping")))
+			if !alive {
+				events = append(events, "r")
+				sc.close()
+				continue
+			}
+			events = append(events, "a", "q:ping:"+res)
+			cl.mu.Lock()
+			for _, nd := range cl.nodes {
+				nd.delayMs = 25
+			}
+			cl.mu.Unlock()
+			before := sp.counter("downstream.rq_total")
+			sc.send(bulkArr([]byte("get"), []byte("nobody-waits-for-this")).bytes(), nil)
+			waitFor(2*time.Second, func() bool { return sp.counter("downstream.rq_total") > before }) // it has been read
+			sc.close()
+			events = append(events, "q:get:s", "x")
+			finished++
+			waitFor(2*time.Second, func() bool { return sp.counter("downstream.cx_destroy_total") >= uint64(finished) })
+			cl.mu.Lock()
+			for _, nd := range cl.nodes {
+				nd.delayMs = 0
+			}
+			cl.mu.Unlock()
+			settle(40 * time.Millisecond)
 		case 0, 1:
 			sc := dialProxy(sp.addr)
 			res, alive := ask(sc, bulkArr([]byte("ping")))
@@ -267,11 +302,63 @@ func runC20(r *rng) (string, string) {
 	return strings.Join(events, " "), sp.snapshot()
 }
 
+// runC20NoHosts: a service that has no endpoints yet: every keyed request fails, and is counted as one that failed
+func runC20NoHosts() (string, string) {
+	events := []string{"L0"}
+	simProxySeq++
+	name := fmt.Sprintf("sim%d", simProxySeq)
+	port := freePort()
+	cfg := redisConfig(port, 0, 300*time.Millisecond)
+	p, err := proc.New(name, cfg, nil)
+	if err != nil {
+		return "L0", "NEW-FAILED"
+	}
+	p.Start()
+	sp := &simProxy{p: p, name: name, addr: fmt.Sprintf("127.0.0.1:%d", port)}
+	defer stopProxy(sp)
+	var sc *simClient
+	for t := 0; t < 400 && sc == nil; t++ {
+		if c, err := net.DialTimeout("tcp", sp.addr, 100*time.Millisecond); err == nil {
+			sc = &simClient{c: c, br: bufio.NewReaderSize(c, 64<<10)}
+		} else {
+			time.Sleep(5 * time.Millisecond)
+		}
+	}
+	if sc == nil {
+		return "L0", "NOT-LISTENING"
+	}
+	events = append(events, "a")
+	for i := 0; i < 4; i++ {
+		sc.send(bulkArr([]byte("get"), []byte("k"+strconv.Itoa(i))).bytes(), nil)
+		rp, err := sc.recv(3 * time.Second)
+		if err != nil {
+			break
+		}
+		if rp.t == '-' {
+			events = append(events, "q:get:f")
+		} else {
+			events = append(events, "q:get:s")
+		}
+	}
+	sc.close()
+	events = append(events, "x")
+	waitFor(3*time.Second, func() bool {
+		return sp.gauge("downstream.cx_active") == 0 && sp.counter("downstream.cx_total") == sp.counter("downstream.cx_destroy_total")
+	})
+	return strings.Join(events, " "), sp.snapshot()
+}
+
 func init() {
 	register("c20", func() {
 		cases, impl := create("cases.txt"), create("impl.txt")
 		hist := map[string]int{}
 		r := newRng(*fSeed)
+		{
+			ev, snap := runC20NoHosts()
+			fmt.Fprintln(cases, ev)
+			fmt.Fprintln(impl, snap)
+			hist["a service without endpoints"]++
+		}
 		for i := 0; i < *fN; i++ {
 			if expired() {
 				hist["stopped at the deadline"] = 1
